@@ -44,7 +44,8 @@ class Factory:
              "cea": ["norc", "rcflags", "exploit", "nonutf8", "wronghost-state", "wrongrealm-state", "wronghost-extra"],
              "dwr": ["twostate", "nonutf8"], "dwa": ["norc", "twostate"],
              "dpr": ["busy", "nonutf8"], "dpa": ["norc"]}
-    APP = ["req-host-local", "req-host-other", "req-realm-local", "req-realm-other", "req-none", "req-both-other-realm-local", "ans"]
+    APP = ["req-host-local", "req-host-other", "req-realm-local", "req-realm-other", "req-none", "req-both-other-realm-local", "ans",
+           "req-nosid", "ans-nosid", "req-sid-nonutf8", "req-bare"]
 
     def all_names(self):
         out = []
@@ -62,6 +63,12 @@ class Factory:
             hdr = DiameterHeader(flags=bytes([0xC0 if is_req else 0x40]), command_code=(316).to_bytes(3, "big"),
                                  application_id=(16777251).to_bytes(4, "big"))
             avps = [SessionIdAVP(b"s;1;2"), OriginHostAVP(psmdrv.HOST), OriginRealmAVP(psmdrv.REALM)]
+            if var in ("req-nosid", "ans-nosid"):
+                avps = avps[1:]                          # an application message without a Session-Id AVP
+            elif var == "req-sid-nonutf8":
+                avps[0] = SessionIdAVP(b"caf\xe9;1;2")
+            elif var == "req-bare":
+                avps = []                                # a bare header
             if var == "req-host-local":
                 avps += [DestinationHostAVP(psmdrv.LHOST), DestinationRealmAVP(psmdrv.LREALM)]
             elif var == "req-host-other":
